@@ -449,7 +449,7 @@ Section Wf2Bool.
            | _, _ => false
            end) xs ys
     | NBin o ln rn l r, NBin o' ln' rn' l' r' =>
-        match o, o' with OAdd, OAdd | OSub, OSub | OMul, OMul | ODiv, ODiv => true | _, _ => false end
+        match o, o' with OAdd, OAdd | OSub, OSub | OMul, OMul | ODiv, ODiv | OFloorDiv, OFloorDiv | OMod, OMod => true | _, _ => false end
         && String.eqb ln ln' && String.eqb rn rn' && node_eqb l l' && node_eqb r r'
     | NUn o nm c, NUn o' nm' c' =>
         match o, o' with UNeg, UNeg | UAbs, UAbs => true | _, _ => false end
